@@ -412,6 +412,7 @@ def targets(ctx):
         yield {"matrix": "google_packages"}
         yield {"matrix": "service_names"}
         yield {"matrix": "types_named_like_wkt"}
+        yield {"matrix": "single_construct_shapes"}
 
     def service_files():
         body = "message Q { int32 a = 1; }\n" + "".join(
@@ -445,7 +446,12 @@ def targets(ctx):
                 return Eval(fails, weight=len(SVC_NAMES), nontrivial_count=len(SVC_NAMES), labels=["matrix:service_names"])
             finally:
                 c.cleanup()
-        if case["matrix"] == "types_named_like_wkt":
+        if case["matrix"] == "single_construct_shapes":
+            # one package per construct / oneof shape / position of a builtin-named field (vf/props/_shapes.py)
+            from ._shapes import SINGLE_CONSTRUCT
+
+            files = dict(SINGLE_CONSTRUCT)
+        elif case["matrix"] == "types_named_like_wkt":
             # user-defined messages / enums merely NAMED like well-known types, in every position (protos/wktlike.proto)
             import os
 
